@@ -1,7 +1,7 @@
 """C05 - no lost wake-ups: every input change reaches every dependent controller."""
 import vlib, rtlib, pipelib
 
-WHATS = {"lost-wakeup", "lost-wakeup-queue", "mapped-change-not-propagated", "reconcile-of-unknown-controller",
+WHATS = {"registration-race/notification-lost", "lost-wakeup", "lost-wakeup-queue", "mapped-change-not-propagated", "reconcile-of-unknown-controller",
          "valid-registration-rejected", "run-did-not-return-after-cancel"}
 
 
@@ -13,6 +13,8 @@ def run(ctx):
     rtlib.selftest(ctx, traces, bad)
     # the repository's own controller test suites with the pipeline hooks on: every hand-over of the dedup map is judged
     pipelib.stage(ctx, "C05", ctx.tier)
+    # an input change committed while a registration is in progress reaches everybody who had a matching input
+    rtlib.registration_races(ctx)
     ctx.assumptions += [
         "dedup/delivery goroutine steps run eagerly on the real code; batching, controller busy time, failures and late starts are scheduled",
         "quiet = nothing recorded during a 3 min virtual-time window after everything was released",
